@@ -162,6 +162,13 @@ class SymExec:
                     hp_ = self.helper_paths(it, env)
                     if hp_ is not None and len(hp_) == 1 and not hp_[0][1]:
                         it = hp_[0][0]
+                if isinstance(it, ast.Call) and isinstance(it.func, ast.Name) and it.func.id == 'range' and not it.keywords and \
+                   1 <= len(it.args) <= 2 and all(isinstance(a_, ast.Constant) and isinstance(a_.value, int) and
+                                                  not isinstance(a_.value, bool) for a_ in it.args) and \
+                   0 <= (it.args[-1].value - (it.args[0].value if len(it.args) == 2 else 0)) <= 8:
+                    # a comprehension over a short constant range: entry by entry
+                    lo_ = it.args[0].value if len(it.args) == 2 else 0
+                    it = ast.Tuple(elts=[ast.Constant(value=i_) for i_ in range(lo_, it.args[-1].value)], ctx=ast.Load())
                 if isinstance(it, ast.Call) and isinstance(it.func, ast.Name) and it.func.id in ELEMENTWISE and it.args and \
                    isinstance(it.args[0], (ast.Tuple, ast.List)) and not any(isinstance(x, ast.Starred) for x in it.args[0].elts):
                     # an element-wise formatter over a literal: one result per literal entry
@@ -508,6 +515,20 @@ class SymExec:
             if d is not None:
                 cur = p.env.get(d)
                 idx_ = self.subst(target.slice, p.env) if isinstance(target.slice, ast.AST) else None
+                if idx_ is not None:
+                    idx_ = simplify(idx_)
+                lit2 = _matrix_literal(cur)
+                if lit2 is not None and isinstance(idx_, ast.Tuple) and len(idx_.elts) == 2 and isinstance(b, ast.Name) and \
+                   all(isinstance(x, ast.Constant) and isinstance(x.value, int) and not isinstance(x.value, bool)
+                       for x in idx_.elts) and 0 <= idx_.elts[0].value < len(lit2.elts) and \
+                   0 <= idx_.elts[1].value < len(lit2.elts[idx_.elts[0].value].elts):
+                    # M[i, j] = v on a small matrix known entry by entry (np.eye(n) / np.array([[...]]))
+                    rows = [list(r_.elts) for r_ in lit2.elts]
+                    rows[idx_.elts[0].value][idx_.elts[1].value] = value
+                    p.env[d] = ast.Call(func=ast.Attribute(value=ast.Name(id='np', ctx=ast.Load()), attr='array', ctx=ast.Load()),
+                                        args=[ast.List(elts=[ast.List(elts=r_, ctx=ast.Load()) for r_ in rows], ctx=ast.Load())],
+                                        keywords=[])
+                    return
                 starred_list = isinstance(cur, (ast.List, ast.Tuple)) and any(isinstance(x, ast.Starred) for x in cur.elts)
                 if cur is not None and isinstance(idx_, ast.Constant) and isinstance(idx_.value, int) and idx_.value >= 0 \
                    and isinstance(b, ast.Name) and (not isinstance(cur, (ast.List, ast.Tuple)) or starred_list):
@@ -836,7 +857,72 @@ class SymExec:
             out += cur
         return out or None
 
+    def _counter_names(self):
+        """names that only ever hold an itertools.count(...) iterator in this function: they are walked as
+        the number the iterator hands out next (`c = count(s)` -> c = s ; `next(c)` -> c, then c = c + 1)"""
+        if not hasattr(self, '_counters'):
+            asg = {}
+            for n in ast.walk(self.func.node):
+                if isinstance(n, ast.Assign) and len(n.targets) == 1 and isinstance(n.targets[0], ast.Name):
+                    v = n.value
+                    is_count = isinstance(v, ast.Call) and (dotted(v.func) or '') in ('count', 'itertools.count') and \
+                        len(v.args) <= 1 and not v.keywords
+                    asg.setdefault(n.targets[0].id, []).append(is_count)
+                elif isinstance(n, ast.Name) and isinstance(n.ctx, ast.Store) and not isinstance(parent(n), ast.Assign):
+                    asg.setdefault(n.id, []).append(False)
+            self._counters = {k for k, v in asg.items() if v and all(v)} - set(self.func.all_params)
+        return self._counters
+
+    def _desugar_stateful(self, st):
+        """[statements] equivalent to st for the stateful idioms that are walked in a spelled-out form:
+             D.update((k(x), v(x)) for x in IT)  ->  for x in IT: D[k(x)] = v(x)
+             c = count(s)                        ->  c = s          (c: a counter name)
+             ... next(c) ...                     ->  ... c ... ; c = c + 1
+           None when st is none of these"""
+        if isinstance(st, ast.Expr) and isinstance(st.value, ast.Call) and isinstance(st.value.func, ast.Attribute) and \
+           st.value.func.attr == 'update' and len(st.value.args) == 1 and not st.value.keywords and \
+           isinstance(st.value.args[0], (ast.GeneratorExp, ast.ListComp)) and len(st.value.args[0].generators) == 1 and \
+           not st.value.args[0].generators[0].ifs and isinstance(st.value.args[0].elt, ast.Tuple) and \
+           len(st.value.args[0].elt.elts) == 2:
+            comp = st.value.args[0]
+            g = comp.generators[0]
+            store = ast.Assign(targets=[ast.Subscript(value=st.value.func.value, slice=comp.elt.elts[0], ctx=ast.Store())],
+                               value=comp.elt.elts[1])
+            loop = ast.For(target=g.target, iter=g.iter, body=[store], orelse=[])
+            for x in (store, loop):
+                ast.copy_location(x, st)
+            ast.fix_missing_locations(loop)
+            return [loop]
+        counters = self._counter_names()
+        if not counters or not isinstance(st, (ast.Assign, ast.AugAssign, ast.Expr, ast.Return, ast.AnnAssign)):
+            return None
+        if isinstance(st, ast.Assign) and len(st.targets) == 1 and isinstance(st.targets[0], ast.Name) and \
+           st.targets[0].id in counters and isinstance(st.value, ast.Call) and not getattr(st, '_counter_done', False):
+            v = st.value.args[0] if st.value.args else ast.Constant(value=0)
+            a = ast.Assign(targets=st.targets, value=v)
+            ast.copy_location(a, st)
+            a._counter_done = True
+            return [a]
+        hits = [n for n in ast.walk(st) if isinstance(n, ast.Call) and isinstance(n.func, ast.Name) and n.func.id == 'next'
+                and len(n.args) == 1 and isinstance(n.args[0], ast.Name) and n.args[0].id in counters]
+        if len(hits) != 1:
+            return None
+        nm = hits[0].args[0].id
+        st2 = copy_replace(st, lambda n: ast.Name(id=nm, ctx=ast.Load()) if n is hits[0] else None)
+        ast.copy_location(st2, st)
+        inc = ast.Assign(targets=[ast.Name(id=nm, ctx=ast.Store())],
+                         value=ast.BinOp(left=ast.Name(id=nm, ctx=ast.Load()), op=ast.Add(), right=ast.Constant(value=1)))
+        ast.copy_location(inc, st)
+        inc._counter_done = True
+        ast.fix_missing_locations(inc)
+        if isinstance(st, ast.Return):
+            return None
+        return [st2, inc]
+
     def _stmt(self, st, p):
+        des_ = self._desugar_stateful(st)
+        if des_ is not None:
+            return self._block(des_, [p])
         if isinstance(st, ast.FunctionDef):
             self.local_defs[st.name] = st
             return [p]
@@ -1158,6 +1244,22 @@ class SymExec:
             p.events.append(('assert', ats, None, st, p.loops))
             return [p]
         return [p]
+
+
+def _matrix_literal(cur):
+    """the nested list literal of np.eye(n) (n <= 4) / np.array([[...], ...]); None otherwise"""
+    if not isinstance(cur, ast.Call):
+        return None
+    nm = (dotted(cur.func) or '').split('.')[-1]
+    if nm in ('eye', 'identity') and len(cur.args) == 1 and not cur.keywords and isinstance(cur.args[0], ast.Constant) and \
+       isinstance(cur.args[0].value, int) and 1 <= cur.args[0].value <= 4:
+        n = cur.args[0].value
+        return ast.List(elts=[ast.List(elts=[ast.Constant(value=1 if i == j else 0) for j in range(n)], ctx=ast.Load())
+                              for i in range(n)], ctx=ast.Load())
+    if nm == 'array' and len(cur.args) == 1 and not cur.keywords and isinstance(cur.args[0], ast.List) and cur.args[0].elts and \
+       all(isinstance(r_, ast.List) and not any(isinstance(x, ast.Starred) for x in r_.elts) for r_ in cur.args[0].elts):
+        return cur.args[0]
+    return None
 
 
 def _without(p, name):
@@ -1620,6 +1722,11 @@ def loop_transformer(ctx, func, loop, depth=2, **kw):
     carried = {n.id for st in loop.body for n in ast.walk(st) if isinstance(n, ast.Name) and isinstance(n.ctx, ast.Store)}
     if isinstance(loop, ast.For):
         carried |= {n.id for n in ast.walk(loop.target) if isinstance(n, ast.Name)}
+    # a counter iterator advanced with next() in the body is carried as well
+    cn_ = sx._counter_names()
+    carried |= {n.args[0].id for st in loop.body for n in ast.walk(st) if isinstance(n, ast.Call) and
+                isinstance(n.func, ast.Name) and n.func.id == 'next' and len(n.args) == 1 and
+                isinstance(n.args[0], ast.Name) and n.args[0].id in cn_}
     env = {k_: v for k_, v in pre.items() if k_.split('.')[0] not in carried}
     body_paths = sx.run(stmts=loop.body, env=env)
     post_paths = sx.run(stmts=body[k + 1:], env=env)
